@@ -1802,12 +1802,12 @@ class Transcoder:
     def transcode_query(self, q):
         q_orig = q
 
-        if "=" not in q:
-            # this doesn't look like a form submission
-
-            return q_orig
-
         q = list(parse_qsl_text(q, self.charset))
+
+        if "=" not in q_orig:
+            # bare names without values: transcode them and keep that form
+
+            return "&".join(quote_plus(name) for name, _ in q)
 
         return url_encode(q)
 
